@@ -25,6 +25,8 @@ def make_base(seed):
         # a reference time inside the run: particles released before it have negative time offsets in the files
         sc["reference_s"] = scen.sim2time(sc, sc["nsteps"] // 2) + 7
         sc["reference"] = lab.tstr(sc["reference_s"])
+    if seed % 4 == 3 and sc["fsteps"][-1] > sc["nsteps"]:      # (the forcing must cover the longer window)
+        sc["stop_extra"] = scen.DT // 2      # the run is N + 1/2 time steps long: N steps, before and after a restart
     if seed % 4 == 1:
         # forcing frames between two model times (dt does not divide the frame times): a frame belongs to the step
         # that holds it, before and after a restart alike
